@@ -233,6 +233,30 @@ def c16(tier='quick', seed=0):
                            sample={'policy': pname, 'body': body[:20], 'status': status})
                     if R.full:
                         return R.d
+                # opaque objects below the top level: whatever the outcome (the form encoding cannot serialise them and
+                # raises), the caller's target must be left exactly as it was, down to the identity of every member
+                for body in ('True', 'False'):
+                    h1, h2 = object(), object()
+                    inner = {'handle': h1, 'n': [1, {'k': h2}]}
+                    mid = {'driver': inner, 'id': 's1'}
+                    target = {'name': 'obj1', 'server': mid, 'opaque': h2}
+                    state.update(body=body, status=200, fault=None)
+                    del calls[:]
+                    got = outcome(e.enforce, pname, target, {'roles': ['r1']})
+                    bad = None
+                    if not (set(target) == {'name', 'server', 'opaque'} and target['server'] is mid and target['opaque'] is h2
+                            and set(mid) == {'driver', 'id'} and mid['driver'] is inner and mid['id'] == 's1'
+                            and set(inner) == {'handle', 'n'} and inner['handle'] is h1 and inner['n'][1]['k'] is h2
+                            and target['name'] == 'obj1'):
+                        bad = 'a target with opaque objects below the top level was modified by the %s check under %s: %r' % (
+                            ctype, pname, target)
+                    elif calls:
+                        kw = calls[0][1]
+                        sent = kw.get('json') or kw.get('data') or {}
+                        tgt = sent.get('target')
+                        if isinstance(tgt, dict) and (tgt is target or tgt.get('server') is mid):
+                            bad = 'the payload shares mutable parts of the caller\'s target'
+                    R.case((ctype, pname, 'nested-opaque', body), bad)
     finally:
         requests.post = real
     return R.d
@@ -254,7 +278,9 @@ def mk_sample_defaults(rng):
         for i in range(rng.randint(1, 5)):
             name = 'svc:op%d' % i
             check = rng.choice(['role:admin', "role:a or 'x':%(y)s", 'rule:svc:op0 and not role:b', '@', '!', '',
-                                '(role:a and role:b) or role:c'])
+                                '(role:a and role:b) or role:c', 'role:reader\tor rule:svc:op0', 'role:a\x85or role:b',
+                                'role:a\u2028or\u2029role:b', 'role:é', 'role:a or "q\\uote":%(z)s', 'role:x\x0bor role:y',
+                                ' or '.join('(role:a and role:%s)' % r for r in 'bcdefgh')])
             desc = rng.choice(NASTY)
             kind = rng.choice(['plain', 'documented', 'removal', 'renamed', 'changed'])
             kw = {}
@@ -278,7 +304,8 @@ def c17(tier='quick', seed=0):
     rng = random.Random(seed)
     R = Result('generated sample files', 'random lists of RuleDefault/DocumentedRuleDefault (plain, deprecated for removal, renamed, '
                'changed default) with descriptions and reasons from a hostile set (every line-break character, tabs, #, quotes, '
-               'colons, leading whitespace, over-long words), with and without exclude-deprecated; the YAML sample must load as an '
+               'colons, leading whitespace, over-long words) and check strings with tabs, NEL/LS/PS, non-ASCII letters, quotes and more '
+               'than a line of text, with and without exclude-deprecated; the YAML sample must load as an '
                'empty mapping and, with rule lines uncommented, as exactly the defaults; the JSON sample as that mapping')
     for it in range(150 if tier == 'quick' else 1500):
         defaults = mk_sample_defaults(rng)
@@ -374,7 +401,7 @@ def c18(tier='quick', seed=0):
     roles = ['a', 'b', 'c', 'legacy']
     role_sets = [c for k in range(len(roles) + 1) for c in itertools.combinations(roles, k)]
     values = ['role:a', 'role:b or role:c', [['role:a'], ['role:b', 'role:c']], '@', '!', "role:a and 'q\"x':%(k)s", 'not role:b',
-              [['role:c']], 'role:a or rule:helper']
+              [['role:c']], 'role:a or rule:helper', '', [], '', []]
     # a check string much longer than any line width an emitter might fold at (values are emitted on one line)
     LONG = ' or '.join('(role:a and role:%s and not role:legacy)' % r for r in ('b', 'c', 'b', 'c'))
     values.append(LONG + ' or role:c')
